@@ -664,6 +664,40 @@ func c07UseAnsweredWithTransientError(c *Ctx, idx int) {
 			}
 		}
 	}
+	// the keyspace that was refused is created: the same USE, by the same client and by another one, now succeeds - a
+	// refusal is an answer to one request, not something the proxy knows about the keyspace
+	ghost := fmt.Sprintf("ghost_%d", idx)
+	bed.Cluster.AddKeyspace(ghost)
+	bed.Cluster.SetUseErrors(ghost, nil) // scripted answers the earlier step did not use up are not part of this one
+	cl2, err := bed.ReadyClient(primitive.ProtocolVersion4, comp)
+	if err != nil {
+		r.Inconc("c07 transient USE error: handshake of the second client: " + err.Error())
+		return
+	}
+	defer cl2.Close()
+	for who, k := range []*rawcql.Client{cl, cl2} {
+		f, err := k.Call(int16(300+who), &message.Query{Query: "USE " + ghost, Options: opts}, 30*time.Second)
+		r.Eval(1)
+		if err != nil || f == nil {
+			r.Violate(mon.Violation{Signature: "C07/no-reply/use-of-a-keyspace-created-after-it-was-refused", Detail: "USE " + ghost + ": no reply", Scenario: scenario})
+			return
+		}
+		if ri := DecodeReply(comp, f); ri.Kind != "SetKeyspace" {
+			r.Violate(mon.Violation{Signature: "C07/use-refused-although-the-keyspace-exists-now", Detail: fmt.Sprintf("USE %s was refused while the keyspace did not exist; it was then created, and USE %s (client %d of 2) was answered %s %q", ghost, ghost, who+1, ri.Kind, ri.ErrMsg), Scenario: scenario})
+			return
+		}
+		tok := NewTok()
+		df, err := k.CallF(BuildRequest(primitive.ProtocolVersion4, int16(310+who), KQuery, true, tok, primitive.ConsistencyLevelOne), 15*time.Second)
+		if err != nil || df == nil {
+			r.Violate(mon.Violation{Signature: "C07/no-reply/after-use-of-a-keyspace-created-after-it-was-refused", Detail: "request after USE " + ghost + " got no reply", Scenario: scenario})
+			return
+		}
+		if di := DecodeReply(comp, df); di.Kind != "Rows" || !di.HasEcho || di.Echo.Ks != ghost {
+			r.Violate(mon.Violation{Signature: "C07/wrong-keyspace/after-use-of-a-keyspace-created-after-it-was-refused", Detail: fmt.Sprintf("USE %s was answered SET_KEYSPACE; the next request was answered %s %q in keyspace %q", ghost, di.Kind, di.ErrMsg, di.Echo.Ks), Scenario: scenario})
+			return
+		}
+		r.Obs("echoes_checked", 1)
+	}
 	r.Obs("transient_use_error_histories", 1)
 	r.NonTrivial(fmt.Sprintf("use-answered-with-transient-error/c%d/%s/%d", conns, comp, idx%4))
 }
